@@ -19,16 +19,26 @@ TYPED = {"Bool": "bool", "Int": "int", "Null": "null", "OctetString": "octetstri
 
 
 def suffixes(rng, kind):
-    out = [b"", bytes([rng.choice([0x00, 0x01, 0x02, 0x05, 0x30, 0x7f, 0x80, 0x81, 0xff])]),
+    out = [b"", bytes([rng.choice([0x00, 0x01, 0x02, 0x05, 0x30, 0x7f, 0x80, 0x81, 0xff])]), bytes([rng.choice([0x80, 0x84, 0x9f, 0xa2, 0xff]), rng.randrange(256)]),
            M.gen_value(rng)["tlv"], bytes(rng.randrange(256) for _ in range(rng.randint(2, 64)))]
     if kind == "Real":
         out += [rng.choice([b"7", b"0", b"e5", b".5", b"E-1", b"99999", b"\x00", b"\x01\x01"])]
     return out
 
 
+TAGS = {"Bool": 0x01, "Int": 0x02, "Null": 0x05, "OctetString": 0x04, "Oid": 0x06, "ObjectDescriptor": 0x07, "Real": 0x09, "IpAddress": 0x40,
+        "Counter32": 0x41, "Gauge32": 0x42, "TimeTicks": 0x43, "UInteger32": 0x47, "Counter64": 0x46, "Opaque": 0x44}
+
+
 def gen_elem(rng):
     """-> (decoder name, encoding x, class)"""
     r = rng.random()
+    if r < 0.06:
+        # contents of zero or one octet for every decoder (non-canonical, but several are accepted): a decoder that peeks
+        # at "its first content octet" reads the neighbour's when there is none
+        kind = rng.choice(sorted(TAGS))
+        x = bytes([TAGS[kind], 0]) if rng.random() < 0.7 else bytes([TAGS[kind], 1, rng.choice([0x00, 0x7F, 0x80, 0xFF])])
+        return (TYPED[kind] if rng.random() < 0.5 else "value"), x, "short:" + kind, kind
     if r < 0.75:
         v = M.gen_value(rng)
         if rng.random() < 0.5:
